@@ -19,7 +19,7 @@ func (c03) Runs(tier string) int {
 	if tier == "thorough" {
 		return 15000000
 	}
-	return 1000000
+	return 600000
 }
 func (c03) Rule() string {
 	return "sequential: history of 1-25 growth (Push batches, Insert, Transfer-into, Marshal-into) and shrink (Pop, Remove, Reset) ops on a stack of capacity 1-5 (or none); Len/Cap/Avail/IsFull and content re-observed after every op. concurrent (25% of runs): 2-3 tasks x 1-3 such ops under the seeded scheduler. non-trivial = the capacity limit was actually hit by a growth op (sequential) or a context switch separated a growth op's start from its lock (concurrent); distinct = hash(capacity, op sequence with lengths / schedule)"
